@@ -1,7 +1,7 @@
 (* C01 — Acknowledged writes are read back intact, exactly once, in write order.
    Property theorems only; each is closed by a lemma of proofs/{XBinaryP,LogEventP,WireP,JournalP,WriteP}.v. *)
 From LR Require Import lib.Base model.XBinary model.LogEvent model.Wire model.Journal model.Write.
-From LR Require Import proofs.XBinaryP proofs.LogEventP proofs.WireP proofs.JournalP proofs.WriteP proofs.InterleaveP.
+From LR Require Import proofs.XBinaryP proofs.LogEventP proofs.WireP proofs.JournalP proofs.WriteP proofs.InterleaveP proofs.PositionsP.
 
 (* ---- byte codecs ---- *)
 
@@ -92,6 +92,23 @@ Theorem C01_journal_content : forall fparse norm, total fparse -> total norm ->
     forall key, content srv key = map iw_rec (concat (map (spec_req fparse norm key) rs)).
 Proof. exact run_total. Qed.
 Print Assumptions C01_journal_content.
+
+(* the WriteEvent of a Service.Write (any iterator obeying the protocol, any chunk size, journal with increasing
+   chunk ids, fewer than 2^32 records): for a non-empty batch StartPos is the position of the first record of the
+   batch (offset = number of records the partition had) and EndPos the position after its last record (offset = new
+   number of records), also when the batch spans chunk roll-overs; an empty batch emits no event.
+   [pos_offset j p] = number of records of j before position p = (chunk id, index). *)
+Theorem C01_positions : forall (T : Type) get next (RepL : T -> list levent -> Prop), iter_laws get next RepL ->
+  forall fuel cfg j s evs, (0 < max_chunk cfg)%Z -> RepL s evs -> (length evs < fuel)%nat -> ids_ok j ->
+  (N.of_nat (length (flat j) + length evs) < 4294967296)%N ->
+  exists j' s' we, sw_loop T get next fuel fuel cfg j s None = Ok (j', s', we, false) /\
+    flat j' = flat j ++ map iw_rec evs /\ ids_ok j' /\
+    match we with
+    | None => evs = []
+    | Some (st, en) => evs <> [] /\ pos_offset j' st = length (flat j) /\ pos_offset j' en = length (flat j')
+    end.
+Proof. exact write_positions. Qed.
+Print Assumptions C01_positions.
 
 (* K writers on one partition, atomic step = one Journal.Write call, ANY schedule: the journal grows by a log in
    which every record belongs to exactly one writer; what a writer has written is a prefix of its batch and a
@@ -206,3 +223,15 @@ Example C01_readback_nonvacuous :
     length (srv_get srv [x61]) = 3%nat /\ map r_ack res = [true; true] /\
     exists l, read_back (fun b => b) {| max_chunk := 40; max_rec := 100 |} srv [x61] = Ok l /\ length l = 4%nat.
 Proof. eexists _, _. split; [vm_compute; reflexivity|]. vm_compute. repeat split. eexists. split; reflexivity. Qed.
+
+(* C01_positions is not vacuous: a batch of four events on a journal that already holds one record in a full chunk;
+   the event starts in chunk 2 at index 0 and ends in chunk 3 *)
+Example C01_positions_nonvacuous :
+  let j0 := [{| c_id := 1; c_recs := [[x01]]; c_size := 60; c_cfrm := 1 |}] in
+  let evs := [{| le_ts := 1; le_msg := repeat x6d 20; le_flds := [] |}; {| le_ts := 2; le_msg := repeat x6d 20; le_flds := [] |};
+              {| le_ts := 3; le_msg := []; le_flds := [] |}; {| le_ts := 4; le_msg := [x00]; le_flds := [] |}] in
+  ids_ok j0 /\
+  exists j' s', sw_loop (list levent) ls_get ls_next 10 10 {| max_chunk := 50; max_rec := 100 |} j0 evs None =
+                Ok (j', s', Some ((2%N, 0%N), (3%N, 2%N)), false) /\
+                pos_offset j' (2%N, 0%N) = 1%nat /\ pos_offset j' (3%N, 2%N) = 5%nat /\ length j' = 3%nat.
+Proof. cbv zeta. split; [cbn; lia|]. eexists _, _. split; [vm_compute; reflexivity|]. vm_compute. repeat split. Qed.
